@@ -133,6 +133,24 @@ def same_outcome(a, b, rel=1e-9):
     return a == b
 
 
+def cancellation(op, a, b, out, mo):
+    """True when a sum/difference is so small against its operands that float rounding, not the
+    code, decides its value or sign (outside what the rational model can compare)"""
+    if op not in ('add', 'sub') or a[0] == 'num' or b[0] == 'num' or base(a[0]) != base(b[0]):
+        return False
+    sa, sb = si(*a), si(*b)
+    scale = max(abs(sa), abs(sb))
+    vals = []
+    for o in (out, mo):
+        if o[0] == 'ok' and o[1] != 'num':
+            vals.append(abs(si(o[1], o[2], o[3])))
+    exact = abs(sa + sb) if op == 'add' else abs(sa - sb)
+    near = exact <= F(1, 10 ** 9) * scale
+    if len(vals) == 2:
+        return abs(vals[0] - vals[1]) <= F(1, 10 ** 9) * scale
+    return near
+
+
 # --------------------------------------------------------------------------------------------
 # C06
 # --------------------------------------------------------------------------------------------
@@ -285,7 +303,10 @@ def eval_bin(ctx, cases):
         if ml is not None:
             mo = model_outcome(ml)
             if not same_outcome(out, mo):
-                ctx.mismatch(c, out, ml)
+                if cancellation(c['op'], c['a'], c['b'], out, mo):
+                    ctx.count('sum/difference within rounding of its operands (compared relative to the operands)')
+                else:
+                    ctx.mismatch(c, out, ml)
 
 
 def eval_laws(ctx, n):
@@ -364,6 +385,7 @@ def replay_C06(ctx, case):
 # --------------------------------------------------------------------------------------------
 
 TOL = 1e-12
+SWAP = {'eq': 'eq', 'ne': 'ne', 'lt': 'gt', 'gt': 'lt', 'le': 'ge', 'ge': 'le'}
 
 
 def abs_rule(c, x, y, same_unit):
@@ -457,9 +479,13 @@ def eval_cmp(ctx, cases):
         ctx.count(f'cmp regime {regime}')
         if want is not None and out[1] != want:
             # K1: the code uses an absolute tolerance of 1e-12 in the left operand's unit
-            x = float(a[1])
-            y = float(F(b[1]) * SI[b[0]][b[2]] / SI[a[0]][a[2]])
-            if a[2] != b[2] and abs_rule(op, x, y, False) == out[1]:
+            # CPython runs the *right* operand's reflected method when its class is a proper subclass of the left's
+            la, lb, lop = (b, a, SWAP[op]) if (b[0] in BASE and a[0] not in BASE) else (a, b, op)
+            x = float(la[1])
+            fb, fa = _fac(lb[0], lb[2]), _fac(la[0], la[2])
+            # the converted operand exactly as the code computes it (value * f_from / f_to in doubles)
+            y = float(lb[1]) * (fb[0] / fb[1]) / (fa[0] / fa[1])
+            if a[2] != b[2] and abs_rule(lop, x, y, False) == out[1]:
                 ctx.known_finding('K1', c)
             elif a[2] != b[2] and abs(abs(x - y) - TOL) < 1e-15:
                 ctx.count('cmp within an ulp of the absolute tolerance')
@@ -663,14 +689,58 @@ def run_C19(ctx):
             if e[0] == 'ok' and isinstance(e[2], float) and (e[2] == 0.0 or abs(e[2]) < 1e-290 or abs(e[2]) > 1e290):
                 ctx.count('float under/overflow (outside the rational model)')
                 continue
+            if s['op'] in ('add', 'sub') and 'b' in s and cancellation(s['op'], s['a'], s['b'], e, mo):
+                ctx.count('sum/difference within rounding of its operands (compared relative to the operands)')
+                continue
             ctx.mismatch({**case, 'step': s}, e, ml)
+    tiny_stream(ctx)
     run_ctor_checks(ctx)
     ctx.rule = ('random straight-line programs of 40 steps over {construct,+,-,*,/,abs,neg,to,to-in-place,*number,/number} '
                 'on a store of <= 12 live quantities; every live object inspected after every step; '
                 'non-trivial = at least one step returned a quantity; plus constructor boundary cases')
 
 
+def tiny_stream(ctx):
+    """values near the bottom of the double range: conversions of sign-constrained quantities must
+    yield a valid quantity or raise ValueError (the rational model cannot see underflow)"""
+    for k in SIGN:
+        for u, u2 in itertools.permutations(units_of(k), 2):
+            for v in (1e-320, 5e-324, 1e-310, 3e-308):
+                if not sign_ok(k, v):
+                    continue
+                for inplace in (False, True):
+                    case = {'t': 'tiny', 'k': k, 'v': v, 'u': u, 'u2': u2, 'inplace': inplace}
+                    check_tiny(ctx, case)
+
+
+def check_tiny(ctx, case):
+    k, v, u, u2, inplace = case['k'], case['v'], case['u'], case['u2'], case['inplace']
+    q = build([k, v, u])
+    out = impl_outcome(lambda: q.to(u2, inplace=inplace))
+    ctx.case_done(case, nontrivial=True)
+    ctx.count('tiny-value conversion')
+    live = [q]
+    if out[0] == 'ok':
+        live.append(getattr(U, out[1])(1, out[3]) if False else None)
+        if not sign_ok(out[1], out[2]):
+            if inplace and out[2] == 0:
+                ctx.known_finding('K4', case)
+            else:
+                ctx.violation(case, {'why': 'conversion returned an invalid quantity', 'impl': out})
+            return
+    elif out != ('err', 'ValueError'):
+        ctx.violation(case, {'why': 'conversion neither returned a valid quantity nor raised ValueError', 'impl': out})
+        return
+    if not sign_ok(k, q.value):
+        if inplace and q.value == 0:
+            ctx.known_finding('K4', case)
+        else:
+            ctx.violation(case, {'why': f'object left with invalid value {q.value}', 'impl': out})
+
+
 def replay_C19(ctx, case):
+    if case.get('t') == 'tiny':
+        return check_tiny(ctx, case)
     if case.get('t') == 'prog':
         steps, lines, expect, bad = run_program(ctx, case['seed'], case['length'])
         ctx.case_done(case)
